@@ -102,20 +102,80 @@ class TotalDiscovery(TotalSensitive):
 
 
 @contract
-class MinimalHopsModel(Contract):
-    """Network.get_minimal_hops -> utils.get_minimal_hops_to_goal: checked by bounded exhaustive enumeration
-    (checks/c20_hops.py); at call sites its value is an uninterpreted function of the scenario"""
-    qualname = "nasim.envs.network.Network.get_minimal_hops"
+class UtilsHopsModel(Contract):
+    """utils.get_minimal_hops_to_goal(topology, sensitive_addresses): Floyd-Warshall + a search over visiting orders, out
+    of the path-splitting engine's reach.  ASSUMED at call sites: its value is an uninterpreted function of the scenario
+    and it only reads its arguments; both are checked by BOUNDED run-time contracts on the real function
+    (checks/c20_hops.py: exhaustive small topologies + structured larger ones, and the frame monitor).  The call-site
+    precondition (discharged): it is handed the network's own topology and its own list of sensitive addresses."""
+    qualname = "nasim.envs.utils.get_minimal_hops_to_goal"
     verify = False
-    tags = {"": ("C20",)}
+    tags = {"": ("C20", "C06")}
 
     def bind(self, I, fi, args, kwargs):
         S = super().bind(I, fi, args, kwargs)
         S.sig = I.ext_state["sig"]
         return S
 
+    def requires(self, I, S):
+        net = I.ext_state.get("hops_network")
+        if net is None:
+            return []
+        return [("C20.hops-of-this-networks-topology", z3.BoolVal(S.a.get("topology") is net.fields.get("topology"))),
+                ("C20.hops-to-this-networks-sensitive-hosts",
+                 z3.BoolVal(S.a.get("sensitive_addresses") is net.fields.get("sensitive_addresses")))]
+
     def havoc(self, I, S):
         return SymV(HOPS(ival(S.sig.nS)), "real")
+
+
+@contract
+class NetworkMinimalHops(Contract):
+    """Network.get_minimal_hops: the hop count of THIS network's topology and sensitive hosts (callee assumed, see
+    UtilsHopsModel), nothing written"""
+    qualname = "nasim.envs.network.Network.get_minimal_hops"
+    bounded = False
+    tags = {"": ("C20",)}
+
+    def setup(self, I, variant):
+        sig = V.Sigma(concrete=I.ext_state.get("concrete"))
+        for ax in sig.wfs():
+            I.ctx.assume(ax)
+        I.ext_state["sig"] = sig
+        net = sig.network_obj(I)
+        I.ext_state["hops_network"] = net
+        S = Scope(sig=sig)
+        S.a = {"self": net}
+        S.call_args = ([net], {})
+        return S
+
+    def bind(self, I, fi, args, kwargs):
+        S = super().bind(I, fi, args, kwargs)
+        S.sig = I.ext_state["sig"]
+        return S
+
+    def ensures(self, I, S):
+        if getattr(S, "callsite", False):
+            return []
+        return [("C20.hops-of-this-network", rval(S.result) == HOPS(ival(S.sig.nS)) if isinstance(S.result, SymV)
+                 else z3.BoolVal(False))]
+
+    def havoc(self, I, S):
+        return SymV(HOPS(ival(S.sig.nS)), "real")
+
+
+@contract
+class EnvMinimumHops(NetworkMinimalHops):
+    """NASimEnv.get_minimum_hops (public API): the same number"""
+    qualname = "nasim.envs.environment.NASimEnv.get_minimum_hops"
+    callable_by_contract = False
+
+    def setup(self, I, variant):
+        sig, T, st, env, a = env_setup(I, None)
+        S = Scope(sig=sig)
+        S.a = {"self": env}
+        S.call_args = ([env], {})
+        return S
 
 
 @contract
